@@ -4,7 +4,7 @@
    (every copy made of a task's output has exactly one consumer).  That no goroutine stays
    blocked is OBSERVED by the harness (harness/cmd/c19), not proved.
    Only statements, each closed by [exact]. *)
-From Eino Require Import Base.Util Model.StreamAcct Proofs.StreamAcct.
+From Eino Require Import Base.Util Model.StreamAcct Proofs.StreamAcct Model.StreamRun Proofs.StreamRun Model.StreamRunV0 Proofs.StreamRunV0.
 From Coq Require Import Permutation.
 Open Scope N_scope.
 
@@ -49,6 +49,17 @@ Theorem successors_receive_once : forall t out s r,
 Proof. exact successors_once_l. Qed.
 Print Assumptions successors_receive_once.
 
+(* Callback handlers (internal/callbacks.OnWithStreamHandle): for every number of handlers the stream
+   is copied handlers+1 times (not at all without handlers); each handler is handed exactly one copy,
+   one copy continues, nothing else changes in the store. *)
+Theorem callback_copies_have_one_consumer : forall n h s next given s',
+  store_ok s -> In h (s_open s) -> on_with_stream_handle n h s = (next, given, s') ->
+  store_ok s' /\
+  Permutation (s_open s') (remove_one h (s_open s) ++ given ++ [next]) /\
+  List.length given = n.
+Proof. exact on_with_stream_handle_spec. Qed.
+Print Assumptions callback_copies_have_one_consumer.
+
 (* F-C19: the statement is false for the code before the repair b7635b4 ([resolve_task_v0]).
    Witness 1: a node with an edge to END and a multi-branch that selects nothing — 3 copies,
    1 branch evaluation, 1 channel write, nobody closes the third.
@@ -64,6 +75,107 @@ Theorem copies_eq_consumers_v0_refuted_same_target :
        a_handles a = (a_branch_evals a + a_chan_writes a + a_closes a)%nat).
 Proof. exact v0_twice_refuted_l. Qed.
 Print Assumptions copies_eq_consumers_v0_refuted_same_target.
+
+(* ------------------------------------------------------------------ the run level (stretch, DESIGN §11)
+   Model/StreamRun.v: the streaming run loop of runner.run without interrupts — resolveCompletedTasks
+   with the skip cascade of reportBranch / dagChannel.reportSkip, updateValues, updateDependencies,
+   getFromReadyChannels with mergeValues, the END test — over a linear handle store.  A run is
+   driven by a schedule (the batches of completed tasks with the outcome of their branches); the
+   theorems quantify over EVERY graph, EVERY schedule and EVERY branch outcome. *)
+
+(* open_empty_at_end, all-predecessor mode (AllPredecessor graphs and Workflows, eager or not):
+   for every graph whose node keys are distinct, in which END is not a task and every channel has a
+   control predecessor or no predecessor at all ([covered]: initChannelManager skips the latter),
+   every schedule and every branch outcome: if the run ends Done and every node ran or was
+   skipped, then nothing else was scheduled together with END and the only live stream handle is the
+   output handed to the caller — every copy, every value written to a channel, every merge input
+   was consumed by a node, a branch condition, mergeValues or an explicit close, exactly once
+   (a double use makes [run] fail with E_DOUBLE_USE, so [run = Ok] excludes it). *)
+Theorem open_empty_at_end_dag : forall g sched out dropped st,
+  g_dag g = true -> NoDup (all_keys g) -> ~ In kEND (all_keys g) -> covered g = true ->
+  run g sched = Ok (Done out dropped st) ->
+  all_finished g st = true ->
+  s_open (rs_store st) = [out] /\ dropped = [].
+Proof. intros g sched out dropped st Hd Hn He. exact (open_empty_at_end_dag_l g Hd Hn He sched out dropped st). Qed.
+Print Assumptions open_empty_at_end_dag.
+
+(* open_empty_at_end, any-predecessor mode (Pregel): if END is reached with no other node
+   scheduled, the only live handle is the output. *)
+Theorem open_empty_at_end_pregel : forall g sched out st,
+  g_dag g = false -> NoDup (all_keys g) -> ~ In kEND (all_keys g) ->
+  run g sched = Ok (Done out [] st) ->
+  s_open (rs_store st) = [out].
+Proof. intros g sched out st Hp Hn He. exact (open_empty_at_end_pregel_l g Hp Hn He sched out st). Qed.
+Print Assumptions open_empty_at_end_pregel.
+
+(* ... and once the caller has drained or closed the output, no handle is live *)
+Theorem open_empty_after_caller : forall st out,
+  s_open (rs_store st) = [out] ->
+  exists s', consume out (rs_store st) = Ok s' /\ s_open s' = [].
+Proof. exact caller_consumes_l. Qed.
+Print Assumptions open_empty_after_caller.
+
+(* the status invariant behind the all-predecessor theorem, of independent interest (C02 territory):
+   in every reachable state of a run no node has two tasks (in flight or resolved) *)
+Theorem dag_node_runs_at_most_once : forall g sched st,
+  g_dag g = true -> NoDup (all_keys g) -> ~ In kEND (all_keys g) -> covered g = true ->
+  run g sched = Ok (Running st) ->
+  NoDup (rs_pending st ++ rs_resolved st).
+Proof. intros g sched st Hd Hn He. exact (dag_once_l g Hd Hn He sched st). Qed.
+Print Assumptions dag_node_runs_at_most_once.
+
+(* F-C19b and 760a968 at run level.  Model/StreamRunV0.v is the same run loop with the two channel
+   operations as parameters; instantiated with the current operations it IS the run model
+   (definitional equality), instantiated with dagChannel.reportValues as it was before 14672f6, resp.
+   dagChannel.reportSkip as it was before 760a968, open_empty_at_end is false. *)
+Theorem run_model_is_instance : forall g sched, run_g report_skip report_value g sched = run g sched.
+Proof. exact run_g_current. Qed.
+
+Theorem open_empty_at_end_v0_values_refuted :
+  ~ (forall g sched out dropped st,
+       g_dag g = true -> NoDup (all_keys g) -> ~ In kEND (all_keys g) -> covered g = true ->
+       run_v0_values g sched = Ok (Done out dropped st) -> all_finished g st = true ->
+       s_open (rs_store st) = [out]).
+Proof. exact v0_values_refuted_l. Qed.
+Print Assumptions open_empty_at_end_v0_values_refuted.
+
+Theorem open_empty_at_end_v0_skip_refuted :
+  ~ (forall g sched out dropped st,
+       g_dag g = true -> NoDup (all_keys g) -> ~ In kEND (all_keys g) -> covered g = true ->
+       run_v0_skip g sched = Ok (Done out dropped st) -> all_finished g st = true ->
+       s_open (rs_store st) = [out]).
+Proof. exact v0_skip_refuted_l. Qed.
+Print Assumptions open_empty_at_end_v0_skip_refuted.
+
+(* non-vacuity of the run theorems: a diamond with a branch (all-predecessor), a Workflow shape
+   whose branch carries no data and whose unselected end holds a data-only input, a Pregel loop *)
+Example run_dag_nonvacuous :
+  g_dag ex_dag = true /\ NoDup (all_keys ex_dag) /\ ~ In kEND (all_keys ex_dag) /\ covered ex_dag = true /\
+  exists out st, run ex_dag ex_dag_sched = Ok (Done out [] st) /\ all_finished ex_dag st = true /\
+                 s_open (rs_store st) = [out] /\ s_log (rs_store st) = [3%Z; 2%Z] /\ l_merges (rs_log st) = [3%nat].
+Proof. exact ex_dag_ok. Qed.
+
+Example run_workflow_nonvacuous :
+  g_dag ex_wf = true /\ g_eager ex_wf = true /\ covered ex_wf = true /\
+  exists out st, run ex_wf ex_wf_sched = Ok (Done out [] st) /\ all_finished ex_wf st = true /\
+                 s_open (rs_store st) = [out] /\
+                 l_update_closes (rs_log st) = 1%nat /\ l_skip_closes (rs_log st) = 1%nat.
+Proof. exact ex_wf_ok. Qed.
+
+Example run_pregel_nonvacuous :
+  g_dag ex_pregel = false /\ NoDup (all_keys ex_pregel) /\ ~ In kEND (all_keys ex_pregel) /\
+  exists out st, run ex_pregel ex_pregel_sched = Ok (Done out [] st) /\ s_open (rs_store st) = [out] /\
+                 rs_resolved st = [0; 2; 3; 2; 3].
+Proof. exact ex_pregel_ok. Qed.
+
+(* the hypothesis "END reached with no other node scheduled" cannot be dropped: a Pregel graph in
+   which END and another node are scheduled in the same superstep leaves the other node's input live *)
+Theorem open_empty_at_end_pregel_needs_end_alone :
+  ~ (forall g sched out dropped st,
+       g_dag g = false -> NoDup (all_keys g) -> ~ In kEND (all_keys g) ->
+       run g sched = Ok (Done out dropped st) -> s_open (rs_store st) = [out]).
+Proof. exact pregel_end_not_alone_l. Qed.
+Print Assumptions open_empty_at_end_pregel_needs_end_alone.
 
 (* non-vacuity: concrete accounts (v0 against current code on the two witnesses; a fan-out with
    two branches selecting three distinct nodes plus one repeated; a Workflow-style branch
@@ -100,6 +212,11 @@ Example nodata_branch_accounts :
     Ok {| a_copies := [3%Z]; a_handles := 3; a_branch_evals := 1; a_chan_writes := 1; a_closes := 1;
           a_resolve_closes := 0; a_update_closes := 1 |}.
 Proof. vm_compute. reflexivity. Qed.
+
+Example callback_copies_example :
+  on_with_stream_handle 2 0 (init_store 0) = (3, [1; 2], {| s_next := 4; s_open := [1; 2; 3]; s_log := [3%Z] |}) /\
+  callback_copies 2 3 = [3%Z; 3%Z; 3%Z] /\ callback_copies 0 3 = [].
+Proof. vm_compute. repeat split. Qed.
 
 Example store_ok_nonvacuous : store_ok (init_store 0) /\ In 0 (s_open (init_store 0)).
 Proof. split; [exact (init_store_ok 0)|now left]. Qed.
